@@ -175,8 +175,9 @@ def run_check(pid, a, seed, env, tmpd, t0):
             no_input = False
         report("vc:" + o["name"], f"obligation {o['name']} refuted ({o.get('clause','')}) at {o.get('fn')}:{o.get('line')}", data, no_input)
 
-    # coverage / level
-    b_clean = bool(B.get("present")) and not b_viol and not B.get("crash")
+    # coverage / level (a bounded run whose only reports are listed known findings still covers an undecided obligation)
+    b_unknown = [v for v in b_viol if vc.match_known(pid, v["signature"]) is None]
+    b_clean = bool(B.get("present")) and not b_unknown and not B.get("crash")
     uncovered_undecided = [o for o in undecided if not (b_clean and o.get("bounded_fallback", True))]
     for o in undecided:
         tag = "covered bounded" if o not in uncovered_undecided else "NOT covered"
